@@ -273,7 +273,37 @@ func runC04(env *Env, rc *RunCtx) {
 	nWrites, nInvalid := 0, 0
 	for i := 0; i < nOps; i++ {
 		op := dom.GenOp(t, m.T, false)
+		// one REST patch in four: one of its entries names BOTH kinds of subject
+		// (JSON can; the subject id is what the model goes by). The server may refuse
+		// the request or go by either subject - every other entry of the request is
+		// stored with exactly its own strings all the same
+		var alt *Model
+		if op.Kind == "patch" && !faults && t.Bool(1, 4) {
+			var cand []int
+			for j, d := range op.Deltas {
+				if d.T.Sub.Set == nil && !d.T.Sub.Nil {
+					cand = append(cand, j)
+				}
+			}
+			if len(cand) > 0 {
+				j := cand[t.Choose(len(cand))]
+				ds := append([]Delta(nil), op.Deltas...)
+				ds[j].AlsoSet = &SetRef{NS: pick(t, dom.NS), Obj: pick(t, dom.Objs), Rel: pick(t, dom.Rels)}
+				op.Deltas = ds
+				rc.Count("probe_entry_with_both_subject_kinds", 1)
+			}
+		}
 		valid, after, want := dom.Expect(op, m)
+		if valid {
+			for j, d := range op.Deltas {
+				if d.AlsoSet != nil {
+					o2 := op
+					o2.Deltas = append([]Delta(nil), op.Deltas...)
+					o2.Deltas[j].T.Sub = Subject{Set: d.AlsoSet}
+					_, alt, _ = dom.Expect(o2, m)
+				}
+			}
+		}
 		k, kind := 0, L2None
 		if faults && t.Bool(1, 3) {
 			k, kind = t.Range(1, 6), l2Kinds[t.Choose(len(l2Kinds))]
@@ -296,6 +326,8 @@ func runC04(env *Env, rc *RunCtx) {
 			return
 		}
 		switch {
+		case fired == 0 && valid && !resp.OK() && alt != nil:
+			// refused as ambiguous: legal, and without effect (checked below)
 		case fired == 0 && valid && !resp.OK():
 			rc.Violate("valid-rejected", site, fmt.Sprintf("valid operation was rejected: %s", entry), witness(nil), -1, nil)
 			return
@@ -324,6 +356,9 @@ func runC04(env *Env, rc *RunCtx) {
 		}
 		// cross-invariants after every op (fault-free observation)
 		_, all, _ := sys.ListAll(Query{}, []int{0, 3, 100}[t.Choose(3)], true)
+		if alt != nil && resp.OK() && bagDiff(all, m.T) != "" && bagDiff(all, alt.T) == "" {
+			m = alt // the server went by the subject set of the ambiguous entry
+		}
 		if d := bagDiff(all, m.T); d != "" {
 			cls := "state-diverged"
 			if !resp.OK() {
